@@ -3386,12 +3386,17 @@ class HasTraits(CHasTraits, metaclass=MetaHasTraits):
             # Although the name should be in the dict, it may not be if a value
             # was assigned to a delegate in a constructor or setstate:
             if name in dict:
-                # Remove the delegate listener:
+                # Remove the delegate listener. A delegate trait created on
+                # demand (the shadow of a mapped trait) is not in the class
+                # table:
+                listener_traits = self.__class__.__listener_traits__
+                if name in listener_traits:
+                    pattern = listener_traits[name][1]
+                else:
+                    pattern = get_delegate_pattern(name, self.trait(name))
                 self.on_trait_change(
                     dict[name],
-                    self._trait_delegate_name(
-                        name, self.__class__.__listener_traits__[name][1]
-                    ),
+                    self._trait_delegate_name(name, pattern),
                     remove=True,
                 )
                 del dict[name]
